@@ -22,6 +22,7 @@ typedef struct { size_t n; char d[STR_CAP + 1]; } str_t;
 typedef struct { _Bool has; sv_t v; } opt_sv_t;
 typedef struct { _Bool has; str_t v; } opt_str_t;
 typedef struct { _Bool has; uint16_t v; } opt_uint16_t;
+typedef struct { _Bool has; _Bool v; } opt_Bool_t;
 typedef struct { uint16_t a[8]; } arr_uint16_t_8_t;
 typedef struct { uint16_t a[8]; } arr_unsigned_short_8_t;
 struct m_url_base { _Bool is_valid; _Bool has_opaque_path; int host_type; int type; };
@@ -180,6 +181,10 @@ def wrapper(ex, cname):
         body.append('  auto r = %s;' % call)
         body += post
         body.append('  opt_sv_t rr; rr.has = r.has_value(); rr.v.p = r ? r->data() : 0; rr.v.n = r ? r->size() : 0; return rr;')
+    elif rct.klass == 'opt' and rct.c == 'opt_Bool_t':
+        body.append('  auto r = %s;' % call)
+        body += post
+        body.append('  opt_Bool_t rr; rr.has = r.has_value(); rr.v = r.value_or(false); return rr;')
     elif rct.klass == 'comp' and not rct.ref:
         body.append('  ada::url_components r = %s;' % call)
         body += post
